@@ -136,6 +136,11 @@ impl Rng {
         }
         v
     }
+    /// random bytes of random length 0..max
+    pub fn bytes_upto(&mut self, max: usize) -> Vec<u8> {
+        let n = self.usize(std::cmp::max(1, max));
+        self.bytes(n)
+    }
     pub fn shuffle<T>(&mut self, xs: &mut [T]) {
         for i in (1..xs.len()).rev() {
             let j = self.usize(i + 1);
